@@ -20,7 +20,7 @@ Flip(i, k) == SetBit(i, k, ~Bit(i, k))
 
 TrueF(n) == Univ(n)
 FalseF == {}
-VarF(n, k) == {i \in Univ(n) : Bit(i, k)}
+VarF(n, k) == IF k < 1 THEN {-1} ELSE {i \in Univ(n) : Bit(i, k)}    \* k = 0: no such variable
 NotF(n, F) == Univ(n) \ F
 AndF(F, G) == F \cap G
 OrF(F, G) == F \cup G
